@@ -311,7 +311,8 @@ def apply(fc):
     fc.contract('parse_nmea_sentence', requires=['line_small(data@.len() as int)'],
                 ensures=['nmea_C08(data@, r)', 'nmea_C02(data@, r)', 'nmea_C07(data@, r)', 'nmea_C19(data@, r)', 'nmea_KFD4(data@, r)'])
     fc.body_prefix('parse_nmea_sentence', '    proof { suf_self(data); }')
-    fc.insert_re('parse_nmea_sentence', r'let \((\w+), \w+\) = terminated\(', r'proof { suf_unfold(\1); }\n    ')
+    # the hint names the cursor that is passed to `terminated(..)(cursor)`, read from the call itself (the let may bind other names)
+    fc.insert_re('parse_nmea_sentence', r'let \(\w+, \w+\) = terminated\((?:[^()]|\([^()]*\))*\)\((\w+)\)', r'proof { suf_unfold(\1); }\n    ')
     if not fc.replace_in_re('parse_nmea_sentence', r'\|(\w+)\| \1 <= &(\w+)', r'|\1: &u32| -> (b: bool) ensures b == (*\1 <= \2), { \1 <= &\2 }'):
         fc.lost.pop()
         fc.replace_in_re('parse_nmea_sentence', r'\|(\w+)\| \*\1 <= (\w+)', r'|\1: &u32| -> (b: bool) ensures b == (*\1 <= \2), { *\1 <= \2 }')
